@@ -1,6 +1,7 @@
 """C06 — unselected features are inert; selection reads exact zeros; groups stay whole.
 
-L1  Props/C06.v.
+L1  Props/C06.v and Props/C06gen.v (the C06_regenerated_* theorems about Gen/SelectionRules.v, which translator/tr_selection.py rewrites from
+    the current _update_weights / get_selection / _n_selected_features / _group_lasso_penalty / fit sources on every build).
 L2  extracted Model/Selection.v against the implementation: _update_weights (operator chosen, threshold, matrices handed
     over, result, selection), the thresholds of a whole fit (Adam's current rate), get_selection / _n_selected_features
     on every snapshot of fits and paths, check_groups / groups_.
@@ -502,7 +503,16 @@ def stream_fit(chk, i, rng):
 
 
 # ------------------------------------------------------------------ stream 3: paths
+WALL = {"hits": 0}
+
+
 def stream_path(chk, i, rng):
+    if WALL["hits"] >= 3:
+        # three path() runs on tiny data did not finish within the wall limit (never on the unchanged tree): termination is
+        # C07's subject; do not spend the whole budget here, the other streams decide
+        chk.dist["path:skipped-after-wall-limits"] += 1
+        chk.count(None)
+        return
     case, gem_kw, y = gen_case(rng, i, small=True)
     case["alpha"] = float(rng.choice([0.3, 1.0, 5.0]))
     case["max_iter"] = int(rng.integers(2, 9))
@@ -529,7 +539,7 @@ def stream_path(chk, i, rng):
         return orig_cvs(clf, Xv, yv, batch_size, gem)
     BS.compute_val_score = rec_cvs
     signal.signal(signal.SIGALRM, _alarm)
-    signal.alarm(20)
+    signal.alarm(10)
     timed_out = False
     try:
         with Spy(est) as spy, warnings.catch_warnings():
@@ -541,6 +551,7 @@ def stream_path(chk, i, rng):
         signal.alarm(0)
         BS.compute_val_score = orig_cvs
     if timed_out:
+        WALL["hits"] += 1
         chk.dist["path:wall-limit"] += 1
         chk.count(None)
         return
@@ -666,8 +677,12 @@ STREAMS = {"zerocol": (stream_zerocol, 100, 1500), "groups": (stream_groups, 600
 
 
 def main():
-    chk = Check("C06")
-    chk.build()
+    chk = Check("C06", props_files=["Props/C06.v", "Props/C06gen.v"])
+    out = chk.build()
+    if "TRANSLATOR-FAIL translator/tr_selection.py" in out:
+        chk.regenerated["Gen/SelectionRules.v"] = "translator failed closed on the current sources (last generated copy used; the correspondence decides)"
+    else:
+        chk.regenerated["Gen/SelectionRules.v"] = "regenerated from gemclus/sparse/_linear_sparse.py and _mlp_sparse.py on this run"
     chk.proofs()
     if chk.replay_path:
         rp = __import__("json").load(open(chk.replay_path))
@@ -692,7 +707,8 @@ def main():
                     "precomputed MMD, adam/sgd, batch sizes, alpha 0..200, M 0..10) with every threshold recorded; path() runs snapshotted at every "
                     "compute_val_score call, at the end and on the returned best weights (dynamic on/off, precomputed affinity). non-trivial = the state has at "
                     "least one unselected feature (update stream: or declared groups; groups stream: a partial or invalid list); distinct = distinct "
-                    "(estimator, gemini, solver, groups kind, d, alpha, #unselected, ...) signature")
+                    "(estimator, gemini, solver, groups kind, d, alpha, #unselected, ...) signature",
+               extra={"regenerated_ties": chk.regenerated})
 
 
 if __name__ == "__main__":
